@@ -124,6 +124,7 @@ def make_qgen(ctx):
             for i, r in enumerate(recs):
                 if r["ctor"] is None:
                     qs += ioc.gen_histories(rng, i, len(r["index"]), case["_hist"])
+                    qs += ioc.gen_histories2(rng, i, len(r["index"]), case["_hist"] // 2)
             return qs
         if case.get("_gen"):
             if any(r["ctor"] is not None for r in recs):
@@ -190,15 +191,15 @@ def run(ctx):
     corp = corpus_cases()
     if corp:
         problems += ioc.run_batch(ctx, corp, PROP, stats, label="k")
-    cases = access_cases(ctx, ctx.n(12, 18) if big else 9, 9 if ctx.thorough else 7, None if ctx.thorough else 45)
-    cases += gen_cases_multi(ctx, ctx.n(10, 20) if big else 7, 8 if ctx.thorough else 6)
-    cases += split_cases(ctx, ctx.n(4, 5) if big else 3, 6 if ctx.thorough else 5)
-    cases += history_cases(ctx, ctx.n(2, 6), ctx.n(220, 400))
+    cases = access_cases(ctx, ctx.n(12, 18) if big else 6, 9 if ctx.thorough else 7, None if ctx.thorough else 40)
+    cases += gen_cases_multi(ctx, ctx.n(10, 20) if big else 5, 8 if ctx.thorough else 6)
+    cases += split_cases(ctx, ctx.n(4, 5) if big else 2, 6 if ctx.thorough else 5)
+    cases += history_cases(ctx, ctx.n(2, 5), ctx.n(130, 240))
     for c in cases:
         c.pop("_dummy", None)
     problems += ioc.run_batch(ctx, cases, PROP, stats, query_gen=qgen, label="g")
     if ctx.thorough or escalate or problems:
-        extra = access_cases(ctx, ctx.n(4, 24), 6, 40) + gen_cases_multi(ctx, ctx.n(4, 15), 5) + split_cases(ctx, ctx.n(2, 4), 4) + history_cases(ctx, ctx.n(2, 4), ctx.n(150, 300))
+        extra = access_cases(ctx, ctx.n(3, 24), 6, 40) + gen_cases_multi(ctx, ctx.n(3, 15), 5) + split_cases(ctx, ctx.n(1, 4), 4) + history_cases(ctx, ctx.n(1, 3), ctx.n(90, 200))
         problems += ioc.run_batch(ctx, extra, PROP, stats, query_gen=qgen, with_model=False, label="s")
         ctx.extra["search"] = {"ran": True, "evaluations": len(extra), "oracle": "sequential pass of the same file (every access path must reproduce it), single-session file (append splits), particles of the sequential pass (FileGenerator)"}
     else:
